@@ -130,7 +130,9 @@ def pat_grid():
 def repl_grid():
     return _dedupe([A_UNDEF, A_NULL, A_str(""), A_str("Z"), A_str("$&"), A_str("$$"), A_str("$`"), A_str("$'"),
                     A_str("$1"), A_str("$0"), A_str("$<n>"), A_str("$"), A_str("a$&b$$c$"), A_num(1), O_EMPTY_ARR,
-                    O_TOSTRING_B])
+                    O_TOSTRING_B,
+                    # an escaped dollar directly in front of a character that would otherwise start a reference
+                    A_str("$$&"), A_str("$$'"), A_str("$$`"), A_str("$$1"), A_str("$$$&"), A_str("$&$$&$'"), A_str("$$$$`")])
 
 
 def pad_grid(ln):
@@ -142,7 +144,10 @@ def pad_grid(ln):
 def key_grid(ln):
     return idx_grid(ln) + [A_str("01", "numstr"), A_str("1.0", "numstr"), A_str(" 1", "numstr"), A_str("-0", "numstr"),
                            A_str("1e0", "numstr"), A_str("+1", "numstr"), A_str("0x1", "numstr"), A_str("length"),
-                           A_str(""), O_TOSTRING_2]
+                           A_str(""), O_TOSTRING_2,
+                           # digit strings that are not canonical indices: leading zeros only, decimal digits of other scripts
+                           A_str("00", "numstr"), A_str("000", "numstr"), A_str("\u0661"), A_str("\uff12"), A_str("\u00b2"),
+                           A_str("1\u0660"), A_str("\u0967"), A_str("0" * 30, "numstr"), A_str("1" * 30, "numstr")]
 
 
 def ctor_grid():
@@ -168,7 +173,7 @@ RECEIVERS = [
     ("\u00a0\u2028x\u3000\u2029", "ws"), ("\u001cx\u0085", "ws-python-only"), ("\u180ex\u200b", "ws-none"),
     ("0123456789", "digits"), ("aXbXc", "ascii"), ("\u00c0\u00c9\u00df", "nonascii-case"), ("\u0130i", "nonascii-case"),
     ("\u65e5\u672c\u8a9e", "nonascii"), ("a\u0000b", "nul"), ("x" * 50, "long"), ("xundefinednullNaN1", "ascii"),
-    ("a$&b", "ascii"), ("a\ud83db", "lone-surrogate"), (R.units("a\U0001F600b"), "nonbmp"),
+    ("a$&b", "ascii"), ("x$'y$`z$$w$&", "ascii"), ("a\ud83db", "lone-surrogate"), (R.units("a\U0001F600b"), "nonbmp"),
 ]
 
 # method -> grids per position (functions of the receiver length)
@@ -541,7 +546,7 @@ SPECIAL_NUMS = [NAN, INF, -INF, -0.0, 0.0, 2.0 ** 31, 2.0 ** 32 + 1, -(2.0 ** 31
 NON_NUM = [A_UNDEF, A_NULL, A_TRUE, Arg("false", False, "bool"), A_str("1", "numstr"), A_str("x"), A_str(" 2 ", "numstr"),
            A_str("", "numstr"), A_str("-1", "numstr"), A_str("Infinity", "numstr"), O_EMPTY_ARR, O_ARR1, O_VALUEOF]
 NON_STR = [A_UNDEF, A_NULL, A_TRUE, A_num(1), A_num(NAN), A_num(-0.0), A_num(1.5), O_EMPTY_ARR, O_ARR1, O_TOSTRING_B]
-REPLS = ["", "Z", "$&", "$$", "$`", "$'", "$1", "$01", "$<a>", "$", "[$&|$`|$']", "$$$&", "a$"]
+REPLS = ["", "Z", "$&", "$$", "$`", "$'", "$1", "$01", "$<a>", "$", "[$&|$`|$']", "$$$&", "a$", "$$&", "$$'", "$$`", "$&$$&", "$$$$&$'", "$'$$`"]
 
 
 def _random_cases(seed, n, methods, maxlen):
